@@ -47,6 +47,7 @@ pub struct AMod {
     pub code: Vec<ABody>,
     pub customs: Vec<(String, Vec<u8>, usize)>,
     pub sections: Vec<String>,
+    pub elem_flags: Vec<u32>,   // the flag byte each element segment is encoded with
     pub code_section: Option<(usize, usize)>,   // range of the code section contents (starting at the count LEB)
 }
 
@@ -85,7 +86,7 @@ pub fn decode(bytes: &[u8]) -> Result<AMod, String> {
                     wasmparser::ElementKind::Active { table_index, offset_expr } => AElemKind::Active { table: table_index, offset: const_expr(&offset_expr) } };
                 let items = match e.items { wasmparser::ElementItems::Functions(f) => AElemItems::Funcs(f.into_iter().collect::<Result<Vec<_>, _>>().map_err(|e| e.to_string())?),
                     wasmparser::ElementItems::Expressions(rt, es) => { let mut v = vec![]; for x in es { v.push(const_expr(&x.map_err(|e| e.to_string())?)); } AElemItems::Exprs(reft(rt), v) } };
-                m.elems.push(AElem { kind, items }); } }
+                m.elem_flags.push(bytes.get(e.range.start).copied().unwrap_or(255) as u32); m.elems.push(AElem { kind, items }); } }
             Payload::DataCountSection { count, .. } => { m.sections.push("datacount".into()); m.data_count = Some(count); }
             Payload::DataSection(s) => { m.sections.push("data".into()); for d in s { let d = d.map_err(|e| e.to_string())?;
                 let kind = match d.kind { wasmparser::DataKind::Passive => ADataKind::Passive, wasmparser::DataKind::Active { memory_index, offset_expr } => ADataKind::Active { memory: memory_index, offset: const_expr(&offset_expr) } };
